@@ -7,8 +7,8 @@ import json
 import bindgen as G
 import bindlib as B
 
-WIDE_FEATURES = {"attr", "elem", "child", "list", "text", "ns", "nillable", "tokens", "wrapper", "sequence", "attributes", "fixed"}
-FEAT = {"nillable": True, "tokens": True, "wrapper": True, "sequence": True, "fixed": True, "anyAttrs": True}
+WIDE_FEATURES = {"attr", "elem", "child", "list", "text", "ns", "nillable", "tokens", "wrapper", "sequence", "attributes", "fixed", "inherit"}
+FEAT = {"nillable": True, "tokens": True, "wrapper": True, "sequence": True, "fixed": True, "anyAttrs": True, "inherit": True}
 XSI = "http://www.w3.org/2001/XMLSchema-instance"
 
 TYPING = ("out-of-claim: None inside a list that is not nillable", "out-of-claim: None where the default is not None")
@@ -18,6 +18,9 @@ EMPTY_TEXT = "out-of-claim: empty text vs None"
 FIXED = "out-of-claim: init=False field that differs from its default (not an __init__ parameter)"
 MAP_KEY_NS = "out-of-claim: key of an Attributes map outside the namespaces of the var (typing)"
 MAP_KEY_XSI = "out-of-claim: key of an Attributes map in the xsi namespace (xsi:type / xsi:nil are control attributes)"
+NOT_INSTANCE = "out-of-claim: the object is not an instance of the declared class of the field (typing)"
+TYPE_LOOKUP = "out-of-claim: xsi:type does not lead XmlContext.find_subclass from the declared class back to the class of the object"
+TYPE_NAME = "out-of-claim: class name that is not an NCName"
 MAP_VALUE_DT = "out-of-claim (model): value of an Attributes map that is the Clark name of a datatype (needs the writer's prefixes)"
 
 
@@ -57,10 +60,48 @@ def regions(desc, value, ctx=None):
     (`ctx`: the exported metadata, needed for the qualified names an `Attributes` map may hold)"""
     by = {c["name"]: c for c in desc["classes"]}
     metas = {ci["id"]: [m for _, m in ci["metas"]] for ci in (ctx or {"classes": []})["classes"]}
+    infos = {ci["id"]: ci for ci in (ctx or {"classes": []})["classes"]}
     out = []
 
-    def has_map(name):
-        return any(_ftype(f) == "Attributes" for f in by[name]["fields"])
+    def meta_for(cname, pns):
+        """`ClassInfo.metaFor`: the metadata built under parent namespace `pns`, else the first one"""
+        ms = infos[cname]["metas"]
+        for k, m in ms:
+            if k == pns:
+                return m
+        return ms[0][1]
+
+    def find_subclass(c, t):
+        """`XmlContext.find_subclass`, re-stated on the exported index"""
+        if any(q == t for q, _ in ctx["datatypes"]):
+            return None
+        cmro = infos[c]["mro"]
+        for q, types in ctx["xsi_index"]:
+            if q == t:
+                for tp in types:
+                    if tp in cmro:
+                        continue
+                    if any(x in cmro for x in infos[tp]["mro"]):
+                        return tp
+                return None
+        return None
+
+    def derived(c, cls, var, pns):
+        """regions of an instance of `cls` under a var of declared class `c` (`cls != c`)"""
+        if c not in infos[cls]["mro"]:
+            out.append(NOT_INSTANCE)
+            return
+        t = meta_for(cls, pns)["target_qname"]
+        local = t.split("}", 1)[1] if t.startswith("{") else t
+        if not local or any(ch.isspace() or ch == ":" for ch in local) or local.startswith("{"):
+            out.append(TYPE_NAME)
+        if t == var["qname"]:
+            out.append("C01-derived-element-named-as-type")
+            return
+        mc = meta_for(c, pns)
+        found = find_subclass(c, t) if mc["target_qname"] != t else None
+        if found != cls:
+            out.append(TYPE_LOOKUP)
 
     def map_check(cname, entries):
         from xsdata.models.enums import DataType
@@ -79,6 +120,8 @@ def regions(desc, value, ctx=None):
                 out.append(MAP_VALUE_DT)
 
     def cls_nillable(name):
+        if name in metas:
+            return bool(metas[name][0]["nillable"])
         return bool((by[name].get("meta") or {}).get("nillable"))
 
     def emits_child(f, x):
@@ -89,8 +132,18 @@ def regions(desc, value, ctx=None):
             return bool(x["list"]) or bool(md.get("tokens") and md.get("nillable"))  # an empty wrapper element is not counted
         return True
 
+    def all_fields(name):
+        c = by[name]
+        fs = []
+        for b in c.get("bases", []):
+            fs += all_fields(b)
+        return fs + c["fields"]
+
+    def has_map(name):
+        return any(_ftype(f) == "Attributes" for f in all_fields(name))
+
     def has_content(c, v):
-        for (_, x), f in zip(v["fields"], c["fields"]):
+        for (_, x), f in zip(v["fields"], all_fields(v["obj"])):
             typ = _ftype(f)
             if typ == "Text":
                 if x is not None and not (isinstance(x, dict) and "list" in x and not x["list"]):
@@ -104,14 +157,18 @@ def regions(desc, value, ctx=None):
             if isinstance(y, dict) and "str" in y and (y["str"] == "" or any(ch.isspace() for ch in y["str"])):
                 out.append(TOKEN)
 
-    def walk(v, nl):
+    def walk(v, nl, pns=None, typed=False):
         c = by[v["obj"]]
         cn = cls_nillable(v["obj"])
+        meta = meta_for(v["obj"], pns) if ctx else None
+        child_pns = _uri(meta["qname"]) if meta else None
+        if typed and has_map(v["obj"]):
+            out.append("C01-derived-class-attributes-capture-type")
         if nl and not cn and not has_content(c, v):
             out.append("C01-nillable-empty-object")
         if (nl or cn) and has_map(v["obj"]) and not has_content(c, v):
             out.append("C01-nillable-class-attributes-capture-nil")
-        for (_, x), f in zip(v["fields"], c["fields"]):
+        for (_, x), f in zip(v["fields"], all_fields(v["obj"])):
             md = f.get("metadata", {})
             typ = _ftype(f)
             dflt = f.get("default", {}).get("value", "<factory>") if "default" in f else "<required>"
@@ -129,7 +186,11 @@ def regions(desc, value, ctx=None):
                     elif nillable and is_cls and cls_nillable(base["cls"]):
                         out.append(NIL_CLASS)
                 elif isinstance(y, dict) and "obj" in y:
-                    walk(y, nillable)
+                    sub = is_cls and y["obj"] != base["cls"]
+                    if sub:
+                        var = next(w for _, vs in meta["elements"] for w in vs if w["name"] == f["name"])
+                        derived(base["cls"], y["obj"], var, child_pns)
+                    walk(y, nillable, child_pns, sub)
                 elif isinstance(y, dict) and "str" in y and y["str"] == "":
                     if nillable:
                         out.append("C01-nillable-empty-str")
@@ -211,6 +272,8 @@ def ctx_expected(ctx, ns_agree):
     for ci in ctx["classes"]:
         for _, m in ci["metas"]:
             vs = [v for _, vv in m["elements"] for v in vv]
+            if m["text"] and vs:
+                return False  # a subclass adds child elements to a class with a text var (not in the fragments)
             if any(v["tokens"] and v["list_element"] and v["nillable"] for v in vs):
                 return False
             if not _seq_ok(vs):
@@ -273,8 +336,8 @@ def _case(desc, value):
     return desc, value
 
 
-def _f(name, tp, default="REQ", **md):
-    f = {"name": name, "type": tp, "metadata": md}
+def _f(_name, tp, default="REQ", **md):
+    f = {"name": _name, "type": tp, "metadata": md}
     if default != "REQ":
         f["default"] = default
     return f
@@ -346,6 +409,54 @@ MAP_KEY_DECLARED = _case({"classes": [{"name": "Root", "fields": _FIXED}]}, _fix
 MAP_VALUE_PREFIX = _case({"classes": [{"name": "Root", "fields": _FIXED}]}, _fixed_val([["{urn:q}x", "ns0:bar"]]))
 
 
+_Z = _f("z", {"opt": "str"}, NONE, type="Element")
+_EXTRA = _f("extra", {"opt": "int"}, NONE, type="Element")
+_BASE = {"name": "Base", "fields": [_Z]}
+
+
+def _sub(_name, fields, bases=("Base",), **meta):
+    c = {"name": _name, "bases": list(bases), "fields": fields}
+    if meta:
+        c["meta"] = meta
+    return c
+
+
+def _o(cls, **kw):
+    return {"obj": cls, "fields": [[k, v] for k, v in kw.items()]}
+
+
+_ROOT_C = {"name": "Root", "fields": [_f("c", {"list": {"cls": "Base"}}, LIST, type="Element"),
+                                      _f("d", {"opt": {"cls": "Sub"}}, NONE, type="Element", nillable=True)]}
+DERIVED_OK = _case(
+    {"classes": [_BASE, _sub("Sub", [_EXTRA], namespace="urn:s"), _sub("SubSub", [], bases=("Sub",), nillable=True), _ROOT_C]},
+    _o("Root", c={"list": [_o("Base", z={"str": "a"}), _o("Sub", z=None, extra={"int": 1}),
+                           _o("SubSub", z={"str": "b"}, extra={"int": 2}), _o("SubSub", z=None, extra={"int": 0})]},
+       d=_o("SubSub", z=None, extra={"int": 3})),
+)
+DERIVED_NAMED = _case(
+    {"classes": [_BASE, _sub("Sub", [_EXTRA]),
+                 {"name": "Root", "fields": [_f("c", {"opt": {"cls": "Base"}}, NONE, type="Element", name="Sub")]}]},
+    _o("Root", c=_o("Sub", z={"str": "a"}, extra={"int": 1})),
+)
+DERIVED_MAP = _case(
+    {"classes": [_BASE, _sub("Sub", [_MAP]),
+                 {"name": "Root", "fields": [_f("c", {"opt": {"cls": "Base"}}, NONE, type="Element")]}]},
+    _o("Root", c=_o("Sub", z={"str": "a"}, m={"attrs": []})),
+)
+# a sibling of the declared class passes `is_derived` and comes back wrapped in a DerivedElement
+DERIVED_SIBLING = _case(
+    {"classes": [_BASE, _sub("Sub", [_EXTRA]), _sub("Sib", [_f("other", {"opt": "str"}, NONE, type="Element")]),
+                 {"name": "Root", "fields": [_f("c", {"opt": {"cls": "Sub"}}, NONE, type="Element")]}]},
+    _o("Root", c=_o("Sib", z={"str": "a"}, other={"str": "b"})),
+)
+# two subclasses with one qualified name: `find_subclass` takes the first
+DERIVED_SAME_NAME = _case(
+    {"classes": [_BASE, _sub("Sub", [_EXTRA], name="T"), _sub("Sub2", [_f("other", {"opt": "str"}, NONE, type="Element")], name="T"),
+                 {"name": "Root", "fields": [_f("c", {"opt": {"cls": "Base"}}, NONE, type="Element")]}]},
+    _o("Root", c=_o("Sub2", z={"str": "a"}, other={"str": "b"})),
+)
+
+
 def replay(desc, value, expect):
     """(still fails on every writer x handler combination, detail)"""
     u = B.Universe(desc)
@@ -372,5 +483,7 @@ FINDINGS = {
     "C01-tokens-in-sequence-typeerror": lambda: replay(*TOKENS_IN_SEQUENCE, lambda x: x == "serialize:TypeError"),
     "C01-nillable-class-attributes-capture-nil": lambda: replay(*NIL_IN_ATTRIBUTES, lambda x: "XMLSchema-instance}nil" in x),
     "C01-attributes-key-declared": lambda: replay(*MAP_KEY_DECLARED, lambda x: '["m", {"attrs": []}], ["k", {"int": 5}]' in x),
+    "C01-derived-element-named-as-type": lambda: replay(*DERIVED_NAMED, lambda x: x == "ParserError"),
+    "C01-derived-class-attributes-capture-type": lambda: replay(*DERIVED_MAP, lambda x: "XMLSchema-instance}type" in x),
     "C01-attributes-value-prefix-rewritten": lambda: replay(*MAP_VALUE_PREFIX, lambda x: '"{urn:q}bar"' in x),
 }
